@@ -521,6 +521,17 @@ class SymInterp(Interp):
             return ix_
         if name in ("max", "min", "amax", "amin"):
             return lambda a, axis=None, **kw: I.np_minmax("max" if "max" in name else "min", a, axis)
+        if name == "gradient":
+            def gradient(f, *varargs, axis=None, edge_order=1):
+                f = S.asarr(f)
+                if f.ndim != 1 or varargs or edge_order != 1 or axis not in (None, 0, -1):
+                    raise AnalysisAbort("np.gradient beyond a 1-d array with unit spacing")
+                n, d = f.shape[0], f.data
+                if n < 2:
+                    raise NumpyRaise("ValueError", "Shape of array too small to calculate a numerical gradient, at least (edge_order + 1) elements are required.")
+                out = [d[1] - d[0]] + [(d[i + 1] - d[i - 1]) / 2 for i in range(1, n - 1)] + [d[n - 1] - d[n - 2]]
+                return SArr((n,), out)
+            return gradient
         if name == "array_equal":
             def array_equal(a, b, **kw):
                 a, b = S.asarr(a), S.asarr(b)
